@@ -207,11 +207,15 @@ def run_case(n, c):
         lg = log.getvalue() if log is not None else ''
         m = re.search(r'^processed (\d+) read pairs$', lg, re.M)
         ly = {}
+        known_names = {s_.shortName for s_ in dmx.demultiplexingStrategies}
         if 'Strategy\tReads\n' in lg:
             for line in lg.split('Strategy\tReads\n', 1)[1].splitlines():
                 if '\t' in line:
                     a, b = line.rsplit('\t', 1)
-                    ly[a] = int(b)
+                    # only the per-strategy yield lines are constrained by the property; other informational
+                    # 'key<TAB>number' lines a log may carry are not strategy counters
+                    if a in known_names and re.fullmatch(r'\d+', b.strip()):
+                        ly[a] = int(b)
         res['log'] = {'processed': int(m.group(1)) if m else None, 'yields': ly} if log is not None else None
         outs = read_outputs(d)
         res['out_files'] = outs
@@ -331,12 +335,14 @@ def run_main_case(n, c):
         res['out_files'] = outs
         tot = re.findall(r'^done, processed:\t(\d+) reads$', lg, re.M)
         ly = {}
+        known_names = {s_.shortName for s_ in dmx.demultiplexingStrategies}
         for block in lg.split('Strategy\tReads\n')[1:]:
             for line in block.splitlines():
                 if '\t' not in line or line.startswith('processing input files') or line.startswith('done, processed'):
                     break
                 a, b = line.rsplit('\t', 1)
-                ly[a] = ly.get(a, 0) + int(b)
+                if a in known_names and re.fullmatch(r'\d+', b.strip()):
+                    ly[a] = ly.get(a, 0) + int(b)
         if crash or not tot or 'Demultiplexing finished' not in lg:
             res['result'] = {'crash': crash or 'NoLog'}
         else:
